@@ -107,9 +107,23 @@ func c13Ops(u *nodelite.Universe, thorough bool) []c13Op {
 	unpin := func(f string) c13Op {
 		return c13Op{name: "unpin(" + f + ")", kind: "unpin", race: true, run: func(n *nodelite.Node) string { return fmt.Sprint(n.UnpinAPI(file(f).Root)) }}
 	}
+	// one Set(ModeSetPin) call naming several chunks of a file (the localstore API takes a list)
+	pinset := func(f string, chunks ...string) c13Op {
+		return c13Op{name: fmt.Sprintf("pinset(%s|%s)", strings.Join(chunks, ","), f), kind: "set-pin", race: true, run: func(n *nodelite.Node) string {
+			var addrs []boson.Address
+			for _, c := range chunks {
+				for k, v := range u.Names {
+					if v == c {
+						addrs = append(addrs, boson.MustParseHexAddress(k))
+					}
+				}
+			}
+			return c13Err(n.DB.Set(sctx.SetRootHash(bg, file(f).Root), storage.ModeSetPin, addrs...))
+		}}
+	}
 	restart := c13Op{name: "restart", kind: "reopen", run: func(n *nodelite.Node) string { return c13Err(n.Restart()) }}
 	ops := []c13Op{cache("A"), cache("B"), cache("D"), batch("A"), get("A", "A.R", true), get("A", "x", false),
-		remove("A", "y"), del("A"), pin("A"), unpin("A"), pin("D"), unpin("D"), restart}
+		remove("A", "y"), del("A"), pin("A"), unpin("A"), pin("D"), unpin("D"), pinset("A", "x", "y"), restart}
 	if thorough {
 		ops = append(ops, cache("C"), batch("B"), get("B", "x", true), remove("B", "x"), pin("B"), unpin("B"))
 	}
@@ -250,7 +264,12 @@ func TestVerifC13(t *testing.T) {
 			out := op.run(n)
 			x.Logf("%s -> %s", op.name, out)
 			x.Outcome(op.kind + ":" + out)
-			s := check(op.kind, op.name)
+			kindNow := op.kind
+			if op.kind == "set-pin" && strings.HasPrefix(out, "err") {
+				// a Set call naming several chunks that fails at a later chunk: judged under its own key
+				kindNow = "failed-set-pin"
+			}
+			s := check(kindNow, op.name)
 			x.Logf("      [%s]", s.Key())
 			if s.Trigger {
 				racedNow := ""
